@@ -31,11 +31,15 @@ def gen_struct(st, rng, skip=()):
     v = {}
     # a record all of whose fields are zero is a record like any other (the empty element at address 0, LUN 0, an extent at LBA 0)
     zero = rng.random() < 0.05
+    # ... and a record whose fields stand in a relation to one another (equal, adjacent, double / half)
+    pool = gen.related_pool(rng) if not zero and rng.random() < 0.12 else None
     for name, byte, a, w in st.fields:
         if name in skip:
             continue
         if a == "b":
             v[name] = bytes(w) if zero else gen.byte_string(rng, w)
+        elif pool is not None and w >= 3 and rng.random() < 0.8:
+            v[name] = gen.related_value(rng, w, pool)
         else:
             v[name] = 0 if zero else gen.rand_value(rng, w)
     return v
